@@ -349,6 +349,10 @@ func init() {
 			for _, t := range []string{"C[1] D[1]\x1a\r\ngarbage", "C[1] \x07 E[1] F[1]", "C[1]\x00", "C[1]\x1bD[1]", "\x1aC[1]", "C[1]{a=b\x00c}"} {
 				cases = append(cases, Case{"cmd": "strings", "text": t})
 			}
+			// a byte-order mark, zero-width and other invisible characters are characters like any other (not blanks)
+			for _, t := range []string{"\ufeffC[1]", "\ufeffC[1] D[1]\n", "C[1]\ufeff", "\ufeff", "C\ufeff[1]", "C[1] \ufeff D[1]", "C[1]\u200b D[1]", "\u200bC[1]", "C[1]\u00ad", "\u2060C[1]", "C[1]{a=\ufeffb}"} {
+				cases = append(cases, Case{"cmd": "strings", "text": t})
+			}
 			ctl := []rune(ctlAlphabet)
 			for i := 0; i < nrand/3; i++ {
 				var sb strings.Builder
